@@ -462,6 +462,23 @@ fn run(ctx: &mut Ctx, rep: &mut Report, mode: Mode) {
         }
     }
     l5.extend(permuted_chain_packets());
+    for l in 0..=255usize {
+        for t in [39u16, 2, 15] {
+            let mut name = vec![l as u8];
+            name.extend(std::iter::repeat(b'd').take(l));
+            name.push(0);
+            let mut p = vec![0x12, 0x34, 0x80, 0, 0, 1, 0, 1, 0, 0, 0, 0, 1, b'a', 0, 0, 1, 0, 1, 0xc0, 12];
+            p.extend_from_slice(&t.to_be_bytes());
+            p.extend_from_slice(&[0, 1, 0, 0, 0, 1]);
+            let extra = if t == 15 { 2 } else { 0 };
+            p.extend_from_slice(&((name.len() + extra) as u16).to_be_bytes());
+            if t == 15 {
+                p.extend_from_slice(&[0, 5]);
+            }
+            p.extend_from_slice(&name);
+            l5.push(p);
+        }
+    }
     for (i, p) in l5.iter().enumerate() {
         if sw.ctx.mine(i as u64) {
             sw.one("L5", p);
@@ -488,6 +505,16 @@ fn primitives(sw: &mut Sweep, seeds: &[Vec<u8>]) {
         bufs.push(s.clone());
     }
     bufs.push(vec![0xc0; 70000]);
+    // a label of every announced length with that many bytes really present, then the root
+    for l in 0..=255usize {
+        let mut b = vec![l as u8];
+        b.extend(std::iter::repeat(b'x').take(l));
+        b.push(0);
+        bufs.push(b.clone());
+        let mut two = vec![1, b'p'];
+        two.extend_from_slice(&b);
+        bufs.push(two);
+    }
     for (bi, b) in bufs.iter().enumerate() {
         if !sw.ctx.mine(bi as u64) {
             continue;
@@ -546,16 +573,23 @@ fn prim_case(b: &[u8], o: usize) -> Result<String, (String, String)> {
         let mut ds = DNSSector::new(b.to_vec()).map_err(|e| e.to_string())?;
         let a = ds.set_offset(o).is_ok();
         if ds.offset > ds.packet.len() { return Err(format!("set_offset left offset {} > len", ds.offset)); }
+        if a != (o < b.len()) { return Err(format!("set_offset({}) on a {}-byte buffer returned ok={}", o, b.len(), a)); }
+        if a && ds.offset != o { return Err(format!("set_offset({}) left the cursor at {}", o, ds.offset)); }
+        if !a && ds.offset != 0 { return Err(format!("a rejected set_offset({}) moved the cursor to {}", o, ds.offset)); }
         let at = ds.offset;
         let r1 = ds.rr_rdlen().is_ok();
         let r2 = ds.edns_rr_rdlen().is_ok();
-        let mut incs = vec![0usize, 1, 2, o, b.len(), b.len() + 1, usize::MAX, usize::MAX - at];
+        let mut incs = vec![0usize, 1, 2, o, b.len(), b.len() + 1, usize::MAX, usize::MAX - at, (usize::MAX - at).wrapping_add(1), usize::MAX - 1, usize::MAX / 2 + 1, b.len() - at, b.len() - at + 1];
         incs.dedup();
         let mut okc = 0;
         for inc in incs {
             let mut d2 = ds.clone();
-            if d2.increment_offset(inc).is_ok() { okc += 1; }
+            let ok = d2.increment_offset(inc).is_ok();
+            if ok { okc += 1; }
             if d2.offset > d2.packet.len() { return Err(format!("increment_offset({}) from {} left offset {} > len {}", inc, at, d2.offset, d2.packet.len())); }
+            let fits = inc <= b.len() - at;
+            if ok != fits { return Err(format!("increment_offset({}) from {} on a {}-byte buffer returned ok={}", inc, at, b.len(), ok)); }
+            if d2.offset != if fits { at + inc } else { at } { return Err(format!("increment_offset({}) from {} left the cursor at {}", inc, at, d2.offset)); }
             let _ = d2.rr_rdlen();
             let _ = d2.edns_rr_rdlen();
         }
